@@ -915,6 +915,29 @@ impl<'a> VisitMut for Rw<'a> {
     }
 
     fn visit_expr_mut(&mut self, e: &mut Expr) {
+        // macro-expanded `symbol_short!("x")` is the block `{ const SYMBOL: Symbol = Symbol::short("x"); SYMBOL }`:
+        // back to the form the un-expanded sources are translated to (`Symbol::vx_short("x")`, same value)
+        if let Expr::Block(b) = e {
+            if b.label.is_none() && b.block.stmts.len() == 2 {
+                if let (Stmt::Item(Item::Const(c)), Stmt::Expr(Expr::Path(tail), None)) = (&b.block.stmts[0], &b.block.stmts[1]) {
+                    if tail.path.is_ident(&c.ident) {
+                        if let Expr::Call(call) = &*c.expr {
+                            if let Expr::Path(f) = &*call.func {
+                                let segs: Vec<String> = f.path.segments.iter().map(|s| s.ident.to_string()).collect();
+                                if segs.len() >= 2 && segs[segs.len() - 2] == "Symbol" && segs[segs.len() - 1] == "short" && call.args.len() == 1 {
+                                    if let Expr::Lit(ExprLit { lit: Lit::Str(ls), .. }) = &call.args[0] {
+                                        let ls = ls.clone();
+                                        *e = parse_quote!(Symbol::vx_short(#ls));
+                                        self.site("T13-symbol-short");
+                                        return;
+                                    }
+                                }
+                            }
+                        }
+                    }
+                }
+            }
+        }
         // T14 (eta): `.map(Ctor)` with a tuple-struct constructor used as a function value -> `.map(|__c| Ctor(__c))`
         // (Verus does not support constructors as function values; the closure is the same function)
         if let Expr::MethodCall(mc) = e {
